@@ -86,6 +86,16 @@ def gen_template(rng):
         res["Res%d" % i] = r
     if not uniform:
         classes.add("non-uniform-properties")
+    if rng.random() < 0.15:
+        # a fleet: many resources of one type whose values for one property are all different (a long IN list)
+        t = types[0]
+        n_ = rng.randint(7, 19)
+        base_ = rng.randint(1, 50)
+        kind_ = rng.random()
+        for i in range(n_):
+            v_ = (base_ + 10 * i) if kind_ < 0.5 else ("name-%d-%d" % (base_, i))
+            res["Fleet%02d" % i] = {"Type": t, "Properties": {"FleetSize": v_, "Zone": "z%d" % (i % 3)}}
+        classes.add("many-values")
     return {"Resources": res}, classes
 
 
